@@ -15,7 +15,7 @@ const (
 
 var (
 	rComment = regexp.MustCompile(`@tag (.*)`) // 匹配注入 tag
-	rInject  = regexp.MustCompile("`.+`$")
+	rInject  = regexp.MustCompile("`[^`]*`$") // 只匹配字段最后的 tag, 避免匹配到匿名结构体里的 tag
 	rTags    = regexp.MustCompile(`\w+:"[^"]+"`) // 匹配 tag
 )
 
